@@ -89,8 +89,7 @@ func (ctx *Context) Parse(value string) error {
 	if ctx.Config.ParseExprLimit != 0 {
 		p.maxExprCnt = ctx.Config.ParseExprLimit
 	}
-	// 设置错误消息语言
-	SetParseErrorLanguage(ctx.Config.ParseErrorLanguage)
+	// 错误消息语言随解析器的 Config 传递 (d.Config.ParseErrorLanguage)，不再写包级变量，避免并发 VM 之间互相影响
 	if verifOn {
 		verifYield(verifSiteLangSet)
 	}
